@@ -2568,6 +2568,7 @@ impl<'a, E: quiver_core::effects::Effect> Compiler<'a, E> {
         let last_index = terms.len().saturating_sub(1);
         for (i, term) in terms.iter().enumerate() {
             let term_expected = self.expected_for_term(&terms, i, last_index, expected);
+            let is_match_term = matches!(term, ast::Term::Match(_));
             let (term_type, term_prov) = self.compile_term(
                 term.clone(),
                 FlowingValue {
@@ -2584,6 +2585,16 @@ impl<'a, E: quiver_core::effects::Effect> Compiler<'a, E> {
             // the next term; the only short-circuit is between `,`-separated chains, handled
             // in `compile_sequence`). So a term's full type — nil included — flows onward, and
             // a subsequent term that cannot accept nil is a genuine type error.
+            // A term that can yield nil *after* a pattern recorded its narrowing can fail the
+            // branch although the pattern matched, so "the branch fell through" no longer implies
+            // "the pattern did not match": the complement must not be used.
+            if !is_match_term
+                && self.contains_nil(term_type)
+                && let Some(n) = narrowing.as_deref_mut()
+                && n.is_active()
+            {
+                n.disable();
+            }
             current_type = Some(term_type);
             current_prov = term_prov;
         }
